@@ -13,7 +13,7 @@ import (
 
 func init() {
 	register("C20", propMeta{
-		Explanation:  "Decides how the caches are kept behind the authoritative stores: (R1) a node that is not in the transaction's own caches is resolved through the registry handle's active id, the process-wide MRU shortcut only before commit time and the L1 node cache only on an equal version (shared with C03.R2); (R2) every registry writer of the file-system registry refreshes or evicts what it wrote: Add and UpdateNoLocks touch the caches only after the disk write succeeded and then set L1 and L2 for the written handles, Update evicts L1 and L2 on a failed disk write and refreshes them on success, Remove evicts on every exit (deferred); (R3) positional contract: the callers of Registry.Get index the result in lock-step with the request, so every Registry.Get implementation in scope must return handles in request order: all appends to the result happen in loops over the requested ids and appends of different loops are separated by a reset of the result; (R4) the store repository refreshes or evicts the cached StoreInfo AFTER every successful write of a store's metadata - on the commit path of Update and in its undo closure - and evicts it before the store's folder is removed; (R5) the per-process L1 handle cache (refreshed only by this process's own registry writes) is read by nothing but the pre-commit MRU shortcut of nodeRepositoryBackend.get - in particular no Registry.Get implementation serves handles from it. R4 also requires the record cached after a storeinfo write to be the record that was written. R2 also requires that no iteration over the written handles skips the L2 refresh.",
+		Explanation:  "Decides how the caches are kept behind the authoritative stores: (R1) a node that is not in the transaction's own caches is resolved through the registry handle's active id, the process-wide MRU shortcut only before commit time and the L1 node cache only on an equal version (shared with C03.R2); (R2) every registry writer of the file-system registry refreshes or evicts what it wrote: Add and UpdateNoLocks touch the caches only after the disk write succeeded and then set L1 and L2 for the written handles, Update evicts L1 and L2 on a failed disk write and refreshes them on success, Remove evicts on every exit (deferred); (R3) positional contract: the callers of Registry.Get index the result in lock-step with the request, so every Registry.Get implementation in scope must return handles in request order: all appends to the result happen in loops over the requested ids and appends of different loops are separated by a reset of the result; (R4) the store repository refreshes or evicts the cached StoreInfo AFTER every successful write of a store's metadata - on the commit path of Update and in its undo closure - and evicts it before the store's folder is removed; (R5) the per-process L1 handle cache (refreshed only by this process's own registry writes) is read by nothing but the pre-commit MRU shortcut of nodeRepositoryBackend.get - in particular no Registry.Get implementation serves handles from it. R4 also requires the record cached after a storeinfo write to be the record that was written. R2 also requires that no iteration over the written handles skips the L2 refresh. (R6) cache.L2InMemoryCache.Set and SetStruct store the entry before every `return nil`, whatever the expiration: the writers above rely on a refresh replacing the cached entry.",
 		DoesNotCover: "Cross-process freshness of the time-based caches (L1 handle cache TTL, StoreInfo cache TTL), eviction at arbitrary moments and clustered-vs-standalone cache behaviour are runtime matters and are not decided; the value cache is covered only through C19.R4.",
 	}, runC20)
 }
@@ -30,40 +30,8 @@ func runC20(c *Ctx) {
 		kL2Set = "sop.L2Cache.SetStruct"
 		kL2Del = "sop.L2Cache.Delete"
 	)
-	l1Key := func(f *Func, suffix string) string {
-		// resolve the key of r.l1Cache.Handles.<suffix> as used in f
-		for _, cs := range w.AllSites(f) {
-			if strings.HasSuffix(cs.Key, "."+suffix) {
-				if sel, ok := cs.Call.Fun.(*ast.SelectorExpr); ok && strings.Contains(types.ExprString(sel.X), "l1Cache.Handles") {
-					return cs.Key
-				}
-			}
-		}
-		return ""
-	}
 	registryCacheAfterWriteRule(c, r2)
-	{
-		f := w.Fn("fs.registryOnDisk.Update")
-		g := w.G(f)
-		c.Analysed(f)
-		wr := g.callNodes("fs.registryMap.set")
-		setK, delK := l1Key(f, "Set"), l1Key(f, "Delete")
-		c.Check(len(wr) == 1 && setK != "" && delK != "", r2, "Update: disk write, L1 refresh and L1 eviction present", f.Decl.Pos(), "present", fmt.Sprintf("disk writes %d, set %q, delete %q", len(wr), setK, delK), nil)
-		if len(wr) == 1 && setK != "" && delK != "" {
-			fail, succ, ok := g.ErrBranches(wr[0].n, wr[0].cs)
-			c.Check(ok, r2, "Update: result of the disk write is tested", wr[0].cs.Call.Pos(), "tested", "error of hashmap.set not tested", nil)
-			if ok {
-				for _, k := range []string{delK, kL2Del} {
-					offs := g.MustFollowFrom(fail, calls(k), isReturn)
-					c.Offences(g, offs, r2, "Update: failed disk write evicts "+shortKey(k), wr[0].cs.Call.Pos(), "eviction precedes the error return", "after a failed (possibly partial) disk write the cached handle is kept")
-				}
-				offs := g.MustFollowFrom(succ, calls(kL2Set), func(n *GNode) bool { return n.Ret != nil || n.RangeHead != nil })
-				c.Offences(g, offs, r2, "Update: successful disk write refreshes L2", wr[0].cs.Call.Pos(), "SetStruct follows the write", "a written handle is not propagated to the L2 cache")
-				offs = g.MustFollowFrom(succ, calls(setK), func(n *GNode) bool { return n.Ret != nil && g.ClassifyReturn(n) == RetNil })
-				c.Offences(g, offs, r2, "Update: successful disk write refreshes L1 before returning success", wr[0].cs.Call.Pos(), "Handles.Set precedes `return nil`", "Update can succeed without refreshing the L1 handle cache")
-			}
-		}
-	}
+	registryUpdateRefreshRule(c, r2)
 	{
 		f := w.Fn("fs.registryOnDisk.Remove")
 		g := w.G(f)
@@ -95,6 +63,25 @@ func runC20(c *Ctx) {
 		}
 		ok := len(rm) == 1 && deferred != nil && len(g.MustPrecede(func(n *GNode) bool { return n == deferred }, calls("fs.registryMap.remove"))) == 0
 		c.Check(ok, r2, "Remove: L1 and L2 eviction is deferred before the disk removal", f.Decl.Pos(), "defer deleteFromCache(...) precedes hashmap.remove", "a removed handle can stay in the caches (evictions are not guaranteed on every exit)", nil)
+	}
+
+	r6 := c.Rule("R6", "the in-process L2 cache overwrites on every successful Set: registry and store repository writers rely on SetStruct replacing whatever is cached under the key (Get trusts L2 before the file), so in cache.L2InMemoryCache.Set / SetStruct every `return nil` is preceded by the store of the entry, whatever the expiration", 2)
+	for _, k := range []string{"cache.L2InMemoryCache.Set", "cache.L2InMemoryCache.SetStruct"} {
+		f := w.Fn(k)
+		g := w.G(f)
+		c.Analysed(f)
+		isStore := func(n *GNode) bool {
+			for _, cs := range n.Calls {
+				if strings.HasSuffix(cs.Key, ".store") && strings.HasPrefix(cs.Key, "cache.") {
+					return true
+				}
+			}
+			return false
+		}
+		c.Check(len(g.Find(isStore)) >= 1, r6, shortKey(k)+": the entry store is present", f.Decl.Pos(), "present", "no store of the entry found", nil)
+		offs := g.MustPrecede(isStore, func(n *GNode) bool { return n.Ret != nil && g.ClassifyReturn(n) == RetNil })
+		c.Offences(g, offs, r6, shortKey(k)+": every success return has stored the entry", f.Decl.Pos(), "store precedes `return nil`",
+			"Set can report success without replacing the cached entry: a refresh that takes this path leaves the previous handle / store info under the key, and registry.Get (which trusts L2 before the file) keeps serving the pre-commit version and active id to readers and to the commit-time version checks")
 	}
 
 	r3 := c.Rule("R3", "every Registry.Get implementation returns handles in request order", 2)
@@ -579,4 +566,47 @@ func substIdent(txt, name, repl string) string {
 		i++
 	}
 	return string(out)
+}
+
+// registryUpdateRefreshRule (C20.R2, shared by C09.R9): fs.registryOnDisk.Update - the locked per-handle registry
+// write the replay of a dead transaction's log goes through - refreshes L2 and L1 after a successful disk write
+// and evicts both after a failed one, unconditionally.
+func registryUpdateRefreshRule(c *Ctx, r2 string) {
+	w := c.W
+	const (
+		kL2Set = "sop.L2Cache.SetStruct"
+		kL2Del = "sop.L2Cache.Delete"
+	)
+	l1Key := func(f *Func, suffix string) string {
+		for _, cs := range w.AllSites(f) {
+			if strings.HasSuffix(cs.Key, "."+suffix) {
+				if sel, ok := cs.Call.Fun.(*ast.SelectorExpr); ok && strings.Contains(types.ExprString(sel.X), "l1Cache.Handles") {
+					return cs.Key
+				}
+			}
+		}
+		return ""
+	}
+	{
+		f := w.Fn("fs.registryOnDisk.Update")
+		g := w.G(f)
+		c.Analysed(f)
+		wr := g.callNodes("fs.registryMap.set")
+		setK, delK := l1Key(f, "Set"), l1Key(f, "Delete")
+		c.Check(len(wr) == 1 && setK != "" && delK != "", r2, "Update: disk write, L1 refresh and L1 eviction present", f.Decl.Pos(), "present", fmt.Sprintf("disk writes %d, set %q, delete %q", len(wr), setK, delK), nil)
+		if len(wr) == 1 && setK != "" && delK != "" {
+			fail, succ, ok := g.ErrBranches(wr[0].n, wr[0].cs)
+			c.Check(ok, r2, "Update: result of the disk write is tested", wr[0].cs.Call.Pos(), "tested", "error of hashmap.set not tested", nil)
+			if ok {
+				for _, k := range []string{delK, kL2Del} {
+					offs := g.MustFollowFrom(fail, calls(k), isReturn)
+					c.Offences(g, offs, r2, "Update: failed disk write evicts "+shortKey(k), wr[0].cs.Call.Pos(), "eviction precedes the error return", "after a failed (possibly partial) disk write the cached handle is kept")
+				}
+				offs := g.MustFollowFrom(succ, calls(kL2Set), func(n *GNode) bool { return n.Ret != nil || n.RangeHead != nil })
+				c.Offences(g, offs, r2, "Update: successful disk write refreshes L2", wr[0].cs.Call.Pos(), "SetStruct follows the write", "a written handle is not propagated to the L2 cache")
+				offs = g.MustFollowFrom(succ, calls(setK), func(n *GNode) bool { return n.Ret != nil && g.ClassifyReturn(n) == RetNil })
+				c.Offences(g, offs, r2, "Update: successful disk write refreshes L1 before returning success", wr[0].cs.Call.Pos(), "Handles.Set precedes `return nil`", "Update can succeed without refreshing the L1 handle cache")
+			}
+		}
+	}
 }
